@@ -265,13 +265,13 @@ func (c *Cluster) Up(i int) error {
 	}
 	st := op.Val.(iface.Store)
 	p.Stores[c.Addr] = st
-	p.Inc.SetOffline(true)
+	// only this call reads without the network (a miss is an answer, not a wait): replication
+	// started meanwhile by head exchanges fetches as usual
 	lop := k.Do(i, "load -1", 400, func() (interface{}, error) {
 		ctx, cancel := OpCtx(10 * time.Minute)
 		defer cancel()
-		return nil, st.Load(ctx, -1)
+		return nil, st.Load(WithOfflineReads(ctx), -1)
 	})
-	p.Inc.SetOffline(false)
 	if !lop.Done {
 		k.Failf("load/hang", "Load(-1) after restart on n%d did not return", i)
 	}
